@@ -26,6 +26,8 @@ pub enum Op {
     Nak(u16, u8),
     SrtlaAck(u16, u8),
     Reg3(u16),
+    /// receiver rejects the link (soft reset through the real REG_ERR path)
+    RegErr(u16),
     /// silence: advance without inbound (may time links out)
     Silence(u16),
 }
@@ -50,6 +52,7 @@ pub fn strategy(max_ops: usize) -> impl Strategy<Value = Case> {
         2 => (any::<u16>(), 1u8..8).prop_map(|(l, k)| Op::Nak(l, k)),
         2 => (any::<u16>(), 1u8..12).prop_map(|(l, k)| Op::SrtlaAck(l, k)),
         1 => any::<u16>().prop_map(Op::Reg3),
+        1 => any::<u16>().prop_map(Op::RegErr),
         1 => prop_oneof![100u16..6000, Just(16_000u16)].prop_map(Op::Silence),
     ];
     (1u8..=4, any::<bool>(), 0u8..TIMEOUTS.len() as u8, vec(op, 1..max_ops)).prop_map(|(n_links, classic, timeout, ops)| Case { n_links, classic, timeout, ops })
@@ -59,6 +62,8 @@ pub fn strategy(max_ops: usize) -> impl Strategy<Value = Case> {
 struct LinkMon {
     last_ka: Option<u64>,
     eligible_since: Option<u64>,
+    /// a keepalive left on this link since its last reset (so a probe can be outstanding at all)
+    ka_since_reset: bool,
 }
 
 pub fn check(case: &Case, obs: &mut Obs) -> CheckResult {
@@ -72,7 +77,7 @@ pub fn check(case: &Case, obs: &mut Obs) -> CheckResult {
     let timeout = cfg.conn_timeout_ms;
     let mut sh = Shell::new(&addrs, cfg);
     sh.establish_all();
-    let mut mons: Vec<LinkMon> = vec![LinkMon { last_ka: None, eligible_since: Some(sh.now()) }; n];
+    let mut mons: Vec<LinkMon> = vec![LinkMon { last_ka: None, eligible_since: Some(sh.now()), ka_since_reset: false }; n];
     let mut max_spacing: u64 = 1000;
     // establishment counts as tick 0: the timer runs from start-up
     let mut last_tick: Option<u64> = Some(sh.now());
@@ -97,6 +102,15 @@ pub fn check(case: &Case, obs: &mut Obs) -> CheckResult {
                 sh.deliver_reg3(li);
                 mons[li].eligible_since = Some(sh.now());
                 mons[li].last_ka = None;
+            }
+            Op::RegErr(l) => {
+                let li = idx(*l, n);
+                sh.uplink_pkt(li, &[0x92, 0x10]);
+                mons[li].eligible_since = None;
+                mons[li].last_ka = None;
+                mons[li].ka_since_reset = false;
+                resets += 1;
+                obs.class("reg-err-reset");
             }
             Op::Client(k) => {
                 for _ in 0..*k {
@@ -147,6 +161,7 @@ pub fn check(case: &Case, obs: &mut Obs) -> CheckResult {
                         resets += 1;
                         mons[i].eligible_since = None;
                         mons[i].last_ka = None;
+                        mons[i].ka_since_reset = false;
                         obs.class("link-reset-in-tick");
                     }
                     for f in &kas {
@@ -172,6 +187,7 @@ pub fn check(case: &Case, obs: &mut Obs) -> CheckResult {
                     // cadence
                     let m = &mut mons[i];
                     if !kas.is_empty() {
+                        m.ka_since_reset = true;
                         if let Some(base) = m.last_ka.or(m.eligible_since) {
                             vensure!(now - base <= 2 * max_spacing, "keepalive-gap", "op {oi}: link {i} keepalive gap {} ms > 2 x {} ms", now - base, max_spacing);
                         }
@@ -225,6 +241,9 @@ pub fn check(case: &Case, obs: &mut Obs) -> CheckResult {
                     let c = &sh.st.conns[li];
                     let after = (c.rtt.last_rtt_measurement_ms, format!("{:?}", c.rtt.kalman_rtt), c.rtt.prev_rtt_ms.to_bits(), c.last_ack_or_rtt_sample_ms);
                     let sampled = after.0 != before.0 || after.1 != before.1 || after.2 != before.2;
+                    if sampled {
+                        vensure!(mons[li].ka_since_reset, "sample-without-probe", "op {oi}: echo on link {li} took an RTT sample although no keepalive has been sent on it since its last reset");
+                    }
                     if should {
                         // a sample at the same instant as the previous one leaves the stamp equal, but the Kalman state moves
                         vensure!(sampled || before.0 == now, "echo-not-sampled", "op {oi}: valid echo (waiting, rtt {} ms) on link {li} took no RTT sample", now - ts.unwrap());
